@@ -3,6 +3,10 @@ From Coq Require Import NArith List Bool Lia Arith.
 Import ListNotations.
 Require Import SR.Base.Res SR.Model.RefFormat SR.Spec.RefFormat.
 Require Import SR.Gen.RefFormatParams.
+(* The definitions of this development that occur in theorem statements (Props/) live in Spec/RefFormatWf.v (audit item G1).
+   The abbreviations keep the qualified names RefFormatP.name of other files resolving; they are parsing-only aliases. *)
+Require Export SR.Spec.RefFormatWf.
+Notation with_body := SR.Spec.RefFormatWf.with_body (only parsing).
 Open Scope N_scope.
 
 (* ================================================================ what the source says now (T1)
@@ -676,9 +680,6 @@ Proof.
   destruct w as [|c w]; [discriminate|]. simpl in Hc. apply andb_true_iff in Hc. destruct Hc as [Hc _].
   destruct rest as [|[sep w'] r]; simpl; exact Hc.
 Qed.
-
-Definition with_body (e : entry) (b : line) : entry :=
-  {| e_lead := e_lead e; e_d1 := e_d1 e; e_d2 := e_d2 e; e_gap := e_gap e; e_body := b; e_term := e_term e |}.
 
 Lemma line_breaks_sentences : forall e e' w rest rest' tail tail',
   wf_entry e = true -> wf_entry e' = true -> e_d1 e = e_d1 e' -> e_d2 e = e_d2 e' ->
